@@ -61,8 +61,13 @@ def main():
                     want = want.get(pid, 1)
                 okc = code == want or (isinstance(want, (list, tuple)) and code in want)
                 named = True
-                if m["kind"] == "mutant" and code == 1 and m.get("names"):
-                    named = any(m["names"] in l for l in lines)
+                nm = m.get("names")
+                if isinstance(nm, dict):
+                    nm = nm.get(pid)
+                elif pid != m["props"][0]:
+                    nm = None
+                if m["kind"] == "mutant" and code == 1 and nm:
+                    named = any(nm in l for l in lines)
                 status = "ok  " if (okc and named) else "FAIL"
                 if status == "FAIL":
                     bad += 1
